@@ -428,7 +428,8 @@ class Lowering:
             return c
         self.records[c] = None   # placeholder against recursion
         body = self.record_body(rec, 1)
-        self.records[c] = 'typedef struct %s {\n%s} %s;' % (c, body, c)
+        fwd = 'typedef struct %s %s;\n' % (c, c) if re.search(r'\b%s \*' % re.escape(c), body) else ''   # self-reference
+        self.records[c] = fwd + 'typedef struct %s {\n%s} %s;' % (c, body, c)
         self.record_order.append(c)
         return c
 
@@ -1569,8 +1570,8 @@ class Lowering:
                 # from temporaries are struct copies
                 if len(args) == 0:
                     return self.cfg.get('record_default', {}).get(ct, '(%s){0}' % ct)
-                if len(args) == 1 and self.is_temporary(args[0]):
-                    return self.expr(args[0], ctx)
+                if len(args) == 1 and (self.is_temporary(args[0]) or '&&' in ctor_t):
+                    return self.expr(args[0], ctx)      # move (incl. `return local;`): the model's struct copy
         rec = self.find_record(self.strip_cvref(t))
         ext = self.extern_for(self.strip_cvref(t) + '::' + 'ctor|' + ctor_t)
         if ext:
@@ -1948,7 +1949,13 @@ class Lowering:
         out = ['typedef struct %s %s;' % (c, c) for c in sorted(self.opaque_auto)]
         for c in self.enum_order:
             out.append(self.enums[c])
-        for c in self.record_order:
+        # cfg.types_after: {C record: text}: these records are emitted first, each followed by its text
+        # (model types that embed a generated record by value and are embedded by later records)
+        after = self.cfg.get('types_after', {})
+        for c in [c for c in self.record_order if c in after]:
+            out.append(self.records[c])
+            out.append(after[c])
+        for c in [c for c in self.record_order if c not in after]:
             out.append(self.records[c])
         return '\n'.join(out) + '\n'
 
